@@ -225,3 +225,29 @@ Theorem C18_uart_old_oversize_wedged : forall big p, 98 < zlen (c_data big) ->
   uart_write_old (snd (uart_write_old false big)) p = (WBlocked, true).
 Proof. exact uart_old_oversize_wedges. Qed.
 Print Assumptions C18_uart_old_oversize_wedged.
+
+(* ---- round 4: several threads sending on one transport ---- *)
+
+(* When every frame reaches the socket as ONE atomic write (writePacket holds its lock around sendall, fix F18d),
+   then for any number of writers and ANY interleaving of their writes, the stream re-assembles, under any
+   fragmentation, to an interleaving of the writers' packet sequences: nothing lost, torn or reordered within
+   a writer. *)
+Theorem C18_concurrent_writers : forall pss ws, Forall (Forall wf_cpx) pss ->
+  Merge (map (map frame) pss) ws ->
+  exists ps, Merge pss ps /\ concat ws = concat (map frame ps) /\
+    forall s, chunking s (concat ws) -> exists s', read_n (length ps) s = (map Ok ps, s') /\ concat s' = [].
+Proof. exact concurrent_writers. Qed.
+Print Assumptions C18_concurrent_writers.
+
+(* The hypothesis is needed: a writePacket that issues two writes per frame (or whose sendall is cut into several
+   send calls while another thread may write) is torn apart by a second writer. *)
+Theorem C18_split_write_torn :
+  exists ws, Merge [split_writes tornA; split_writes tornB] ws /\
+    fst (read_n 2 [concat ws]) <> [Ok tornA; Ok tornB] /\ fst (read_n 2 [concat ws]) <> [Ok tornB; Ok tornA].
+Proof. exact split_writes_torn. Qed.
+Print Assumptions C18_split_write_torn.
+
+(* the executable merge used by the correspondence step only produces interleavings *)
+Theorem C18_merge_by_sound : forall order (pss : list (list cpx)) ps, merge_by order pss = Some ps -> Merge pss ps.
+Proof. exact (@merge_by_sound cpx). Qed.
+Print Assumptions C18_merge_by_sound.
